@@ -423,6 +423,10 @@ pub fn apply_step(script: &Script, log: &mut MultiRecordLog, step: &Step) -> (Va
             // by the payload seed, so that a script always takes the same path)
             let result = if payloads.len() == 1 && batch[0].seed % 2 == 1 {
                 log.append_record(&script.queues[*q], *pos, &payloads[0][..])
+            } else if (payloads.len() + pos.map(|position| position as usize).unwrap_or(0)) % 2 == 0 {
+                // (the batch comes from an iterator that cannot tell its length up front - a filter -
+                // half of the time: an empty batch is then only known to be empty once it was consumed)
+                log.append_records(&script.queues[*q], *pos, payloads.iter().filter(|_| true).map(|payload| &payload[..]))
             } else {
                 log.append_records(&script.queues[*q], *pos, payloads.iter().map(|payload| &payload[..]))
             };
